@@ -332,9 +332,9 @@ func runClientChain(chain []int) (trace []string, result string, err error) {
 }
 
 func runC19(c *vlib.Check) {
-	maxLen := 3
+	maxLen := 4
 	if c.Thorough() {
-		maxLen = 4
+		maxLen = 5
 	}
 	c.Rule = fmt.Sprintf("explicit-state enumeration of middleware programs: every chain of length 0..%d over stage behaviours {pass, short-circuit, call next twice, call next three times, replace the message, "+
 		"replace the context, fail before next, fail after next} for the client chain, the server message chain and the server batch-item chain, run on the real code; the recorded trace of "+
